@@ -8,7 +8,7 @@
    (a) Flow.v to pyscn (reported dead ranges = lines of the model's dead statements) and
    (b) PySem.v to CPython (same traces under the same oracles) on generated programs each run. *)
 From Coq Require Import NArith List.
-From PV Require Import Py.PyAST Py.PySem Cfg.Flow Cfg.FlowSound Cfg.Builder Cfg.BuilderBounded Cfg.BuilderAgree.
+From PV Require Import Py.PyAST Py.PySem Cfg.Flow Cfg.FlowSound Cfg.Builder Cfg.BuilderBounded Cfg.BuilderAgree Cfg.BuilderRanges.
 
 Theorem C01_executed_is_marked_reachable :
   forall body fuel o out t, run fuel o body = (out, t) -> forall k, In k t -> In (k, true) (fn_marks body).
@@ -54,7 +54,16 @@ Theorem C01_flow_dead_iff_unreachable : forall body, lok_block false body = true
   (forall k, In k (dead_ids body) -> In k (dead_stmt_lines (build body)) \/ In k (elif_block body)).
 Proof. exact flow_dead_iff_unreachable. Qed.
 
+(* UNBOUNDED: every reported line range (first statement start .. last statement end of an unreachable block of the
+   graph-level model) contains only statements the abstraction marks dead, for EVERY body whose ids are the source-order
+   line numbers ([renumber]; every member of the bounded domain [all_bodies] has this form).  Proof: Cfg/BuilderChain.v
+   (inside one block consecutive statements leave no gap), Cfg/FlowRanges.v (a dead header makes everything up to its
+   last line dead), Cfg/BuilderRanges.v. *)
+Theorem C01_ranges_cover_only_dead : forall b0, check_ranges (renumber b0) = true.
+Proof. exact ranges_cover_only_dead. Qed.
+
 Print Assumptions C01_executed_is_marked_reachable.
+Print Assumptions C01_ranges_cover_only_dead.
 Print Assumptions C01_flow_agrees_with_builder.
 Print Assumptions C01_flow_dead_iff_unreachable.
 Print Assumptions C01_flow_agrees_with_builder_bounded.
